@@ -37,6 +37,12 @@ COMPONENTS_BY_ENGINE = {
         "stub_or_replica": ["the leaders are the plan: requests are built from generated leader logs and pushed into the follower's event channel "
                             "as stream_append_entries does", "SimStorageEngine, MemSm, vendored tokio, libc seams"],
     },
+    "scansim": {
+        "real": ["d-engine-server FileStateMachine and RocksDBStateMachine on a real directory: apply_chunk and scan_prefix"],
+        "stub_or_replica": ["the second thread is replaced by guarded schedule points (cfg d_engine_verif) inside apply_chunk and scan_prefix at which "
+                            "the harness runs the other operation to completion on the simulator thread", "reference model of the key-value state per "
+                            "applied index", "vendored tokio (inline blocking), libc seams"],
+    },
     "smsim": {
         "real": ["d-engine-server FileStateMachine and RocksDBStateMachine (apply_chunk, WAL, checkpoint, recovery, get/get_multi/scan_prefix, "
                  "lease_background_cleanup, start/stop/Drop) on a real directory in /dev/shm", "d-engine-server TtlLease",
@@ -59,6 +65,9 @@ ASSUMPTIONS_BY_ENGINE = {
                  "response is fanned out to all merged senders by design, so exact equality of last_match is not demanded (DESIGN.md C36)",
                  "request sequences are those a correct set of leaders can emit (per term one leader with one log); network duplication and "
                  "loss of requests are included, corruption is not"],
+    "scansim": ["interleavings happen at the guarded points only (after the WAL append / the memory update of the File engine, before / after the "
+                "RocksDB batch write, between iteration and revision read of the RocksDB scan), not between arbitrary instructions",
+                "watch events after the scan are modelled from the reference state (the watch pipeline itself is C24's subject)"],
     "smsim": ["process-crash semantics: every completed write() survives the kill; power loss (lost page cache) is not simulated",
               "one applier at a time (as in the node: a single commit-handler task calls apply_chunk)",
               "TTL deadlines within 1 s of an observation are not judged"],
@@ -147,6 +156,11 @@ PROPS = {
                     "machine; at every cleanup keys due >= 1 s ago must be gone, keys due >= 1 s ahead and keys whose TTL was cancelled must "
                     "still hold their value; non-trivial = at least one restart"},
     "C24": {"batches": [B("watch", "watch", 260, 2600), B("general", "general", 60, 600)]},
+    "C25": {"engine": "scansim", "batches": [B("scan_interleaved", "scan", 1500, 15000, masks=[])],
+            "rule": "one evaluation = one generated plan on one real File or RocksDB state machine: 3-8 apply chunks over keys with shared "
+                    "prefixes and 0xFF boundary bytes; per chunk optionally a prefix scan issued from inside apply_chunk at the n-th guarded "
+                    "apply point, and after each chunk a prefix scan that is either quiescent or has the next chunk applied from inside it "
+                    "(RocksDB: at the point between iteration and revision read); non-trivial = at least one interleaved scan"},
     "C26": {"batches": [B("exposed_membership", "membership", 160, 1600, masks=["snapshot_install"]),
                         B("general_exposed", "general", 80, 800, masks=["snapshot_install"])]},
     "C27": {"batches": [B("membership", "membership", 180, 1800), B("general", "general", 60, 600)]},
